@@ -159,3 +159,62 @@ VARIANTS += [
       "            dest[index] = weight_01 * v ** 2 if -1e100 < v < 1e100 "
       "else 1e100", "silent", ""),
 ]
+
+VARIANTS += [
+    V("kernel-loop-upper-bound", O, "        while inner >= state_dim:",
+      "        while inner <= state_dim:", "fire", "D10.5",
+      "a falling counter bounded from above: runs forever or never"),
+    V("kernel-counter-stuck", O,
+      "            v = last_row[inner]\n            inner -= 1\n",
+      "            v = last_row[inner]\n", "fire", "D10.5",
+      "nothing in the loop test changes: no termination"),
+    V("retry-loop-never-runs", O,
+      "    while True:  # loop until we have a sane integration",
+      "    while False:  # loop until we have a sane integration", "fire",
+      "D10.8"),
+    V("running-flag-inverted", O,
+      "            is_running: bool = integration.status == \"running\"",
+      "            is_running: bool = integration.status != \"running\"",
+      "fire", "D10.8", "a failed solver is stepped again (scipy raises), a "
+      "running one is dropped"),
+    V("silent-status-in-local", O,
+      "            is_finished = integration.status == \"finished\"\n"
+      "            is_running: bool = integration.status == \"running\"\n",
+      "            status = integration.status\n"
+      "            is_finished = status == \"finished\"\n"
+      "            is_running: bool = status == \"running\"\n", "silent"),
+    V("stale-status-local", O,
+      "            integration.step()  # do the integration step\n",
+      "            status = integration.status\n"
+      "            integration.step()  # do the integration step\n"
+      "            is_finished = status == \"finished\"\n", "silent", "",
+      "the later assignment from integration.status still decides"),
+    V("stale-status-used", O,
+      "            integration.step()  # do the integration step\n"
+      "            if not func_state.is_ok:\n"
+      "                break  # some out-of-bounds thing happened! quit!\n"
+      "            is_finished = integration.status == \"finished\"\n"
+      "            is_running: bool = integration.status == \"running\"\n",
+      "            status = integration.status\n"
+      "            integration.step()  # do the integration step\n"
+      "            if not func_state.is_ok:\n"
+      "                break  # some out-of-bounds thing happened! quit!\n"
+      "            is_finished = status == \"finished\"\n"
+      "            is_running: bool = status == \"running\"\n", "fire",
+      "D10.8", "the status is read BEFORE the step: the flags are stale"),
+    V("silent-search-mirrored", O,
+      "                while not (dense.t_min <= t <= dense.t_max):",
+      "                while (t < dense.t_min) or (dense.t_max < t):",
+      "silent"),
+    V("silent-state-view", O,
+      "                    point[0:n] = dense(t)  # so we can interpolate "
+      "the state\n                    controller(point[0:n], t, parameters, "
+      "point[n:-1])",
+      "                    sv = point[:n]\n"
+      "                    sv[:] = dense(t)\n"
+      "                    controller(sv, t, parameters, point[n:-1])",
+      "silent"),
+    V("silent-search-bound-mirrored", O,
+      "                    if j >= n_dense:",
+      "                    if not (n_dense > j):", "silent"),
+]
